@@ -46,7 +46,7 @@ Proof.
   destruct (p_program toks (parse_fuel toks) s00) as [s p0|e|] eqn:E; try discriminate.
   intros [= <-]. unfold p_program in E. apply p_map_ok in E as (r & E & ->). cbn [pg_decls pg_info].
   apply p_pair_ok in E as (s1 & E1 & _). apply p_info_ok in E1 as (s2 & E1 & _ & Hinf).
-  exists s2. split; [exact E1|]. rewrite Hinf. unfold s00. cbn [pos refp]. now rewrite Nat.sub_0_r.
+  exists s2. split; [exact E1|]. rewrite Hinf. unfold s00. cbn [pos refp]. rewrite !Nat.sub_0_r. reflexivity.
 Qed.
 
 Lemma parse_run toks p F : parse toks = Done p -> parse_fuel toks <= F ->
@@ -275,7 +275,7 @@ Proof.
   induction F as [|F IH]; intros s s1 l1 s2 l2 Hs Hr H1 H2 k Hk Hst; [discriminate H1|].
   destruct k as [|k].
   - cbn [firstn]. split; [reflexivity|]. split; [lia|].
-    rewrite (many0_start0 toks1 F' _ _ _ _ ltac:(lia) Hr H1), (many0_start0 toks2 F' _ _ _ _ ltac:(lia) Hr H2).
+    rewrite (many0_start0 toks1 F' (S F) s s1 l1 ltac:(lia) Hr H1), (many0_start0 toks2 F' (S F) s s2 l2 ltac:(lia) Hr H2).
     reflexivity.
   - cbn [p_many0] in H1. destruct (P1 s) as [sa [g off]|e|] eqn:E1; [| |discriminate H1].
     2:{ injection H1 as _ <-. cbn [length] in Hk. lia. }
